@@ -106,8 +106,12 @@ def run(R):
     efa = PR.facts(ef)
     want = {"execute_aggregate": {"update": True, "result": True}, "execute_aggregate_update": {"update": True, "result": False},
             "execute_aggregate_result": {"update": False, "result": True}}
+    # a per-mode wrapper that was inlined by hand into execute() is recognised by the aggregate-engine call it wrapped
+    WRAPPED = {"execute_aggregate": AGGE + "execute", "execute_aggregate_update": AGGE + "execute_update", "execute_aggregate_result": AGGE + "execute_result"}
     for cal, w in sorted(want.items()):
         cs = [c for c in ef.calls if short(c.name) == ENG + cal]
+        if not cs and P.fn(ENG + cal) is None:
+            cs = [c for c in ef.calls if short(c.name) == WRAPPED[cal]]
         if not cs:
             R.violation("C11.arms", cal + "|count", "ExecutionEngine::execute never calls %s" % cal, [ef.loc()])
             continue
